@@ -78,6 +78,20 @@ def gen_graph_scenario(rng: random.Random, nnodes=None, nuser=None, recurse_bias
             for n in range(nn):
                 if n not in quiet and rng.random() < 0.7:
                     ops.append(["call", n, [a], []])
+    if rng.random() < 0.3:
+        # a linked variant that is put to use BEFORE its parent: the parent's own first call (its lazy build) is no
+        # change of anybody's method set, so the variant's repeated calls must not resolve again afterwards
+        a = rng.randrange(len(args))
+        ops.append(["create", [], False])
+        root = nn
+        for d in rng.sample(range(ndefs), min(ndefs, rng.randint(1, 3))):
+            ops.append(["reg", root, d])
+        ops.append(["create", [root], True])
+        child = nn + 1
+        if rng.random() < 0.5:
+            ops.append(["reg", child, rng.randrange(ndefs)])
+        ops += [["call", child, [a], []], ["call", child, [a], []], ["call", root, [a], []], ["call", child, [a], []], ["call", root, [a], []]]
+        nn += 2
     alltys = []
     for d in defs:
         for p in d["params"]:
@@ -115,6 +129,7 @@ class GraphWorld(FnWorld):
             del log[:]
             del self.accepts[:]
             depth[0] = 0
+            self.nres[0] = 0
             try:
                 if op[0] == "create":
                     # through the public API where there is one: `copy` (what `variant` uses) for a derived function
@@ -136,7 +151,7 @@ class GraphWorld(FnWorld):
                     pos = [self.vals[i] for i in op[2]]
                     r = nodes[op[1]](*pos)
                     o = ["ran", r[1]] if isinstance(r, tuple) and r and r[0] == "ret" else ["returned", repr(r)[:80]]
-                    out.append({"o": o, "t": self.canon_log(), "locked": [i for i, n in enumerate(nodes) if n._locked]})
+                    out.append({"o": o, "t": self.canon_log(), "locked": [i for i, n in enumerate(nodes) if n._locked], "nres": self.nres[0]})
             except Exception as e:  # noqa
                 k = kind_of_exc(e)
                 if op[0] == "call":
